@@ -129,10 +129,10 @@ def run(ctx):
         ctx.violation("harness-build", {"log": bout[-4000:]}, "harness c13 does not build against /repo", no_input=True)
         return
     base = os.path.join(ctx.work, "pkgs")
-    npk = 10 if ctx.quick else 96
+    npk = 8 if ctx.quick else 96
     pkgs = []
     for i in range(npk):
-        kind = "predicate" if i % 5 == 4 else "script"
+        kind = "predicate" if i % 4 == 3 else "script"
         pkgs.append(gen_pkg(ctx.rng, base, i, kind, ctx.rng.randint(4, 12), 6 if ctx.quick else 10))
     # known-finding probe(s)
     cross = [crossing_pkg(base, n) for n in ([100] if ctx.quick else [88, 92, 100, 110, 124, 126])]
